@@ -164,6 +164,10 @@ type Cell struct {
 	// As: "" = the command is run directly; "env" = through a command translator (SetupAs with
 	// NewCommandAsDifferentUser("env"): `env <command>` execs the command, the way gosu / sudo / nice are used)
 	As string `json:"as,omitempty"`
+	// Reuse: "" = a fresh Subprocess object; "re-setup" = the object was created with another (never ending) context and is
+	// set up again with the cell's context before the run; "second-run" = the object already went through a run of the same
+	// command that was stopped with Stop() (its group killed) before the cell's run starts
+	Reuse string `json:"reuse,omitempty"`
 }
 
 func (c Cell) String() string {
@@ -171,11 +175,42 @@ func (c Cell) String() string {
 	if c.As != "" {
 		s += "|as=" + c.As
 	}
+	if c.Reuse != "" {
+		s += "|reuse=" + c.Reuse
+	}
 	return s
 }
 
 // newSubprocess creates the command of a cell, directly or through the translator.
 func newSubprocess(ctx context.Context, c Cell, loggers logs.Loggers, binPath string, args ...string) (*subprocess.Subprocess, error) {
+	switch c.Reuse {
+	case "re-setup":
+		p, err := subprocess.New(context.Background(), loggers, "", "", "", binPath, args...)
+		if err != nil {
+			return nil, err
+		}
+		return p, p.Setup(ctx, loggers, "", "", "", binPath, args...)
+	case "second-run":
+		p, err := subprocess.New(ctx, loggers, "", "", "", binPath, args...)
+		if err != nil {
+			return nil, err
+		}
+		if err = p.Start(); err != nil {
+			return nil, fmt.Errorf("first run: %w", err)
+		}
+		time.Sleep(150 * time.Millisecond)
+		if err = p.Stop(); err != nil {
+			return nil, fmt.Errorf("first run, Stop: %w", err)
+		}
+		// nothing of the first run may be left for the cell's own ledger: args[1] is the cell directory
+		killEverything(args[1])
+		if es, e := os.ReadDir(args[1]); e == nil {
+			for _, f := range es {
+				_ = os.RemoveAll(filepath.Join(args[1], f.Name()))
+			}
+		}
+		return p, nil
+	}
 	if c.As == "" {
 		return subprocess.New(ctx, loggers, "", "", "", binPath, args...)
 	}
@@ -193,7 +228,7 @@ func grid(thorough bool) []Cell {
 			}
 			for _, sp := range stopsOf(st) {
 				for _, in := range instantsOf(s, thorough) {
-					cells = append(cells, Cell{s.Name, st, sp, in, ""})
+					cells = append(cells, Cell{s.Name, st, sp, in, "", ""})
 				}
 			}
 		}
@@ -204,7 +239,19 @@ func grid(thorough bool) []Cell {
 		for _, st := range starts {
 			for _, sp := range stopsOf(st) {
 				ins := instantsOf(s, thorough)
-				cells = append(cells, Cell{s.Name, st, sp, ins[len(ins)-1], "env"})
+				cells = append(cells, Cell{s.Name, st, sp, ins[len(ins)-1], "env", ""})
+			}
+		}
+	}
+	// a Subprocess object that is not fresh
+	for _, name := range []string{"fan:3", "bg-holder"} {
+		s, _ := shapeByName(name)
+		for _, st := range []string{"Execute", "Start"} {
+			for _, sp := range stopsOf(st) {
+				ins := instantsOf(s, thorough)
+				for _, re := range []string{"re-setup", "second-run"} {
+					cells = append(cells, Cell{s.Name, st, sp, ins[len(ins)-1], "", re})
+				}
 			}
 		}
 	}
@@ -807,6 +854,9 @@ func signature(r Result) string {
 	as := ""
 	if r.Cell.As != "" {
 		as = "|as=" + r.Cell.As
+	}
+	if r.Cell.Reuse != "" {
+		as += "|reuse=" + r.Cell.Reuse
 	}
 	return fmt.Sprintf("shape=%s|start=%s|stop=%s|instant=%s%s|failed=%s", r.Cell.Shape, r.Cell.Start, r.Cell.Stop, r.Class, as, strings.Join(r.Failed, "+"))
 }
